@@ -89,6 +89,14 @@ def cases(ctx):
             prev = blk
         m += gen.rbytes(r, r.choice([0, 5, 16]))
         yield {"k": "enc", "a": "%064x" % a, "b": "%064x" % b, "ca": True, "cb": True, "msg": m.hex(), "exclude": True, "mode": "encrypt", "other": "%064x" % r.randrange(1, ec.N), "seed": r.getrandbits(30), "crafted": True}
+    # key PAIRS whose shared x coordinate starts with two zero bytes (one pair in 65536; found by walking d*P with the reference and kept
+    # as constants): the key derivation hashes the full 33-byte compressed point, leading zeros included
+    RARE_SHARED_X = [("a1cc719db7052664941707dc8770f0b6d75df7ee5c1faa9f52135cb13ccc38b8", "302f0ae02661ddfe99635f3e1fc4be40d2edd018cbf9952fe408726b64557121"), ("a1cc719db7052664941707dc8770f0b6d75df7ee5c1faa9f52135cb13ccc38b8", "302f0ae02661ddfe99635f3e1fc4be40d2edd018cbf9952fe408726b6456f184"), ("50060e38340466fac2041ff7e990b3eace0bd65b6406d27dd0c95e2c411bff13", "43562f72bf9b44383f98f1bb8c9e51d5ce8567493b22e7dedc4bcc230697b683"), ("50060e38340466fac2041ff7e990b3eace0bd65b6406d27dd0c95e2c411bff13", "43562f72bf9b44383f98f1bb8c9e51d5ce8567493b22e7dedc4bcc230697c315")]
+    for pi_, (ra, rb) in enumerate(RARE_SHARED_X):
+        if pi_ % N == S % len(RARE_SHARED_X) and S < 4 * len(RARE_SHARED_X):
+            for exclude in (False, True):
+                for (a_, b_) in ((ra, rb), (rb, ra)):
+                    yield {"k": "enc", "a": a_, "b": b_, "ca": bool(S & 4), "cb": bool(S & 8), "msg": gen.rbytes(r, r.choice([0, 1, 15, 16, 17, 100])).hex(), "exclude": exclude, "mode": "encrypt", "other": "%064x" % r.randrange(1, ec.N), "seed": r.getrandbits(30), "rare_shared_x": True}
     # the message IS a serialised envelope (forwarded / nested envelopes), of either inclusion mode
     for i in range(8 if t else 2):
         if not t and S % 4 != 1:
@@ -125,6 +133,8 @@ def judge(ctx, case):
     ctx.hit("mode_" + mode)
     if exclude:
         ctx.hit("exclude")
+    if case.get("rare_shared_x"):
+        ctx.hit("shared_x_with_two_leading_zero_bytes")
     if case.get("crafted"):
         ctx.hit("body_starts_with_a_valid_public_key")
     if case.get("nested"):
